@@ -176,6 +176,15 @@ impl ObjectWrite for Font {
 }
 
 
+/// largest character identifier of a CIDFont (CIDs are at most two bytes long)
+const MAX_CID: usize = 0xFFFF;
+fn check_cid(cid: usize) -> Result<usize> {
+    if cid > MAX_CID {
+        bail!("character identifier {} in W array is out of range", cid);
+    }
+    Ok(cid)
+}
+
 #[derive(Debug)]
 pub struct Widths {
     values: Vec<f32>,
@@ -286,10 +295,10 @@ impl Font {
                 let mut widths = Widths::new(cid.default_width);
                 let mut iter = cid.widths.iter();
                 while let Some(p) = iter.next() {
-                    let c1 = p.as_usize()?;
+                    let c1 = check_cid(p.as_usize()?)?;
                     match iter.next() {
                         Some(Primitive::Array(array)) => {
-                            widths.ensure_cid((c1 + array.len()).saturating_sub(1));
+                            widths.ensure_cid(check_cid((c1 + array.len()).saturating_sub(1))?);
                             for (i, w) in array.iter().enumerate() {
                                 widths.set(c1 + i, w.as_number()?);
                             }
@@ -297,7 +306,7 @@ impl Font {
                         Some(&Primitive::Reference(r)) => {
                             match resolve.resolve(r)? {
                                 Primitive::Array(array) => {
-                                    widths.ensure_cid((c1 + array.len()).saturating_sub(1));
+                                    widths.ensure_cid(check_cid((c1 + array.len()).saturating_sub(1))?);
                                     for (i, w) in array.iter().enumerate() {
                                         widths.set(c1 + i, w.as_number()?);
                                     }
@@ -307,7 +316,8 @@ impl Font {
                         }
                         Some(&Primitive::Integer(c2)) => {
                             let w = try_opt!(iter.next()).as_number()?;
-                            for c in c1 ..= (c2 as usize) {
+                            let c2 = check_cid(c2 as usize)?;
+                            for c in c1 ..= c2 {
                                 widths.set(c, w);
                             }
                         },
